@@ -20,6 +20,7 @@ def parseOp (issued : Nat) (line : String) : Option Op :=
   | ["openbad", u] => some (.openBad u)
   | ["close", u] => some (.close u)
   | ["expire"] => some .expire
+  | ["expirep"] => some .expire      -- the same, while the tokens keep being presented to other wallets (all refused)
   | ["add", w, t, id, v] => some (.add w (parseTok issued t) id v)
   | ["get", w, t, id] => some (.get w (parseTok issued t) id)
   | ["getall", w, t] => some (.getAll w (parseTok issued t))
